@@ -121,8 +121,9 @@ Proof. exact add_to_then_helper. Qed.
 (* ================================================================ the WIDE owner grammar ================================
    The theorems above carve out escapes decoding to bytes >= 0x80 and have no raw byte >= 0x80, because their model of
    strings.EqualFold is ASCII.  Below the same code runs over the wide models of the libraries: Model/UrlU.v (net/url of
-   go1.23 on all byte strings but userinfo / IP literals), Model/Fold.v (strings.EqualFold with Unicode simple case
-   folding: U+212A KELVIN SIGN ~ "k", U+017F ~ "s", any invalid byte ~ U+FFFD), Model/CollIriU.v (name_eqb, coll_split_u,
+   go1.23 on all byte strings), Model/Fold.v (strings.EqualFold with Unicode simple case
+   folding: U+212A KELVIN SIGN ~ "k", U+017F ~ "s", any invalid byte ~ U+FFFD - used by sameCollectionName; and iri.go
+   equalFold, used by IRI.Equals, where an invalid byte is equal to itself only), Model/CollIriU.v (name_eqb, coll_split_u,
    of_actor_u, valid_collection_iri_u: the code of Model/CollIri.v over them), Model/IriEqU.iri_equ (IRI.Equals).
    Compared with the real code on every run: Cases_C15_usplit, Cases_C15_ustr, Cases_C15_ueq, Cases_C15_ulib.
 
